@@ -101,3 +101,68 @@ func VH_c01_server_fanout() {
 		vReach("empty")
 	}
 }
+
+// C01 (ADD-PATH target): sources in distinct ASes announce and withdraw one prefix; the target
+// negotiated ADD-PATH send with send-max paths per prefix. The queued batches are applied to a view
+// keyed by path identifier. At quiescence the view holds min(send-max, eligible) routes, each of
+// them a route currently in the Loc-RIB under the identifier the Loc-RIB gives it - nothing stale.
+func VH_c01_server_addpath() {
+	fams := []bgp.Family{bgp.RF_IPv4_UC}
+	s := vServer(65000, fams)
+	nsrc := vParam("sources")
+	srcs := make([]*peer, nsrc)
+	for i := range srcs {
+		srcs[i] = vEstablished(s, vNeighbor(byte(2+i), uint32(65001+i), 65000, fams), fams)
+	}
+	tc := vNeighbor(9, 65009, 65000, fams)
+	sendMax := vParam("sendmax")
+	tc.AfiSafis[0].AddPaths.Config.SendMax = uint8(sendMax)
+	t := vEstablished(s, tc, fams)
+	t.fsm.familyMap.Store(map[bgp.Family]bgp.BGPAddPathMode{bgp.RF_IPv4_UC: bgp.BGP_ADD_PATH_SEND})
+	prefix := vPrefix4(10, 1, 0, 0, 16)
+	view := map[uint32]*table.Path{}
+	steps := vParam("steps")
+	for i := 0; i < steps; i++ {
+		k := vChoice("source", nsrc)
+		src := srcs[k]
+		m := vUpdate4(prefix, vBool("withdraw"), []uint32{uint32(65001 + k)}, src.fsm.pConf.ReadOnly().State.NeighborAddress)
+		s.handleFSMMessage(src, &fsmMsg{MsgType: fsmMsgBGPMessage, MsgData: m, timestamp: time.Unix(int64(2000+i), 0)})
+		for t.fsm.outgoingCh.Len() > 0 {
+			om := (<-t.fsm.outgoingCh.Out()).(*fsmOutgoingMsg)
+			for _, path := range om.Paths {
+				id := path.LocalID()
+				if path.IsWithdraw {
+					delete(view, id)
+				} else {
+					view[id] = path
+				}
+			}
+		}
+		for _, sp := range srcs {
+			for sp.fsm.outgoingCh.Len() > 0 {
+				<-sp.fsm.outgoingCh.Out()
+			}
+		}
+	}
+	loc := s.globalRib.GetPathList(table.GLOBAL_RIB_NAME, 0, fams)
+	want := len(loc)
+	if want > sendMax {
+		want = sendMax
+	}
+	vAssert(len(view) == want, "an ADD-PATH peer does not hold min(send-max, eligible) routes for the prefix (stale or missing route)")
+	for id, p := range view {
+		found := false
+		for _, l := range loc {
+			if l.LocalID() == id && l.GetSource() == p.GetSource() {
+				found = true
+			}
+		}
+		vAssert(found, "an ADD-PATH peer holds a route that is not in the Loc-RIB under that path identifier")
+	}
+	if len(loc) > sendMax {
+		vReach("held_back")
+	}
+	if len(view) > 0 {
+		vReach("advertised")
+	}
+}
